@@ -83,10 +83,39 @@ fn sweep_jobs(seed: u64, per_instr: u64) -> Vec<StateSpec> {
     out
 }
 
+/// single-instruction jobs over the BOUNDARY pools (i32 bounds, non-finite floats): results that
+/// depend on the build profile (overflow checks, debug assertions) live here. Size operands are
+/// clamped so that the jobs stay inside the resource envelope.
+fn boundary_jobs(seed: u64, per_instr: u64) -> Vec<StateSpec> {
+    let names = rand_free_names();
+    let mut p = gen::StateParams::full(vec!["NOOP".into()]);
+    p.max_depth = 3;
+    p.tree_depth = 2;
+    p.tree_size = 5;
+    p.graphs = false;
+    let strat = crate::single::state_for_any(names, &p);
+    let mut out = vec![];
+    let total = per_instr * 270;
+    for k in 0..total {
+        let mut r = det_runner(derive_seed(seed, &["C14", "boundary"], k, 0));
+        let (name, mut s) = draw(&strat, &mut r);
+        crate::envelope::clamp_sizes_spec(&mut s, &name);
+        if name == "INTVECTOR.FROMINT" || name == "INDEX.DEFINE" {
+            // fine: bounded by the stack / no allocation
+        }
+        s.exec = vec![ItemSpec::Instr(name)];
+        s.config.eval_push_limit = 30;
+        s.config.eval_time_limit = u64::MAX / 4;
+        out.push(s);
+    }
+    out
+}
+
 /// deterministic job list; jobs whose monitored dry run leaves the resource envelope are dropped
 fn jobs(seed: u64, n: u64) -> Vec<StateSpec> {
     let mut all = program_jobs(seed, n);
     all.extend(sweep_jobs(seed, (n / 40).max(8)));
+    all.extend(boundary_jobs(seed, (n / 80).max(4)));
     // dry-run filter for the sweep jobs as well (EXEC items may be code)
     all
 }
